@@ -90,3 +90,18 @@ package policer
 //@ func (*Policer).recreateECPart
 //@   property C22
 //@   loop 1 iteration [node_list_follows_the_sequence] nodes[rangeindex] == sortedNodes[seq[rangeindex]]
+
+// ---- C27 / C26 (who counts as a holder): in every node list the local node is recognised
+// as such - whatever other lists of the same object it appeared in before - and is never
+// asked for the object's header like a remote holder (a HEAD to oneself would count the very
+// copy whose redundancy is being decided as a confirmation from "another" node).
+//@ ghost pred currentNodeIsLocal() bool
+//@ callrule c27_local_node_recognised in (*Policer).processNodes
+//@   property C27 C26
+//@   callee *).IsLocalNodePublicKey
+//@   pureeffect
+//@   defines result == currentNodeIsLocal()
+//@ callrule c27_no_header_request_to_the_local_node in (*Policer).processNodes
+//@   property C27 C26
+//@   callee *).headObject
+//@   requires [remote_holders_only] !currentNodeIsLocal()
